@@ -253,3 +253,80 @@ Proof.
   unfold Rdiv. rewrite <- (Rmult_1_r (/ 2)) at 2. apply Rmult_lt_compat_l; [lra|].
   rewrite <- Rinv_1. apply Rinv_lt_contravar; nra.
 Qed.
+
+(* ------------------------------ end-to-end statements on the real instance *)
+(* Object3d.unique on rows of reals, ANY rounding function: no repeated row,
+   every non-zero rounded input row is returned, nothing else is *)
+Lemma base_unique_R (rnd10 : R -> R) (flat : list (list R)) :
+  let out := fst (fst (base_unique ROps rnd10 flat)) in
+  NoDup out /\
+  (forall r, In r flat -> row_iszero ROps (map rnd10 r) = false -> In (map rnd10 r) out) /\
+  (forall y, In y out -> exists r, In r flat /\ y = map rnd10 r /\ row_iszero ROps y = false) /\
+  out = nubk (rowcmp ROps) (fun r => r) (filter (fun e => negb (row_iszero ROps e)) (map (map rnd10) flat)).
+Proof.
+  intros out.
+  destruct (obj_unique_contract (rowcmp ROps) rowcmp_R_order (map rnd10) (row_iszero ROps) (fun r => r) [] flat)
+    as [D [C [F N]]].
+  fold (base_unique ROps rnd10 flat) in D, C, F, N. fold out in D, C, F, N.
+  repeat split; auto.
+  - apply (NoDup_nth out []). intros a b Ha Hb E.
+    destruct (Nat.lt_trichotomy a b) as [L|[L|L]]; auto; exfalso.
+    + pose proof (D a b L Hb) as Q. rewrite E in Q.
+      rewrite (proj2 (rowcmp_R_eq _ _) eq_refl) in Q. discriminate.
+    + pose proof (D b a L Ha) as Q. rewrite E in Q.
+      rewrite (proj2 (rowcmp_R_eq _ _) eq_refl) in Q. discriminate.
+  - intros r Hr Hz. destruct (C r Hr Hz) as [y [Hy E]]. apply rowcmp_R_eq in E. subst. auto.
+Qed.
+
+(* Rotation.unique(antipodal=True) with exact keys: two inputs are merged
+   iff they have the same flag and are equal up to sign *)
+Lemma rotation_merge_exact (flat : list (rot (T:=R))) (i j : nat) :
+  (i < length flat)%nat -> (j < length flat)%nat ->
+  let inv := snd (rotation_unique ROps (fun x => x) (fun x => x) true flat) in
+  List.nth i inv 0%nat = List.nth j inv 0%nat <->
+  (snd (List.nth i flat (zrot ROps)) = snd (List.nth j flat (zrot ROps)) /\
+   (fst (List.nth j flat (zrot ROps)) = fst (List.nth i flat (zrot ROps)) \/
+    fst (List.nth j flat (zrot ROps)) = qneg ROps (fst (List.nth i flat (zrot ROps))))).
+Proof.
+  intros Hi Hj inv. unfold inv, rotation_unique.
+  rewrite (rot_inverse_merge (rowcmp ROps) rowcmp_R_order (key_antipodal ROps (fun x => x)) (zrot ROps) flat i j Hi Hj).
+  rewrite rowcmp_R_eq.
+  destruct (List.nth i flat (zrot ROps)) as [q fi]. destruct (List.nth j flat (zrot ROps)) as [q' fj].
+  apply key_antipodal_exact.
+Qed.
+
+(* ... with ANY rounding function: q and -q with the same flag are always
+   merged, *)
+Lemma rotation_merge_always (rnd10 rnd12 : R -> R) (flat : list (rot (T:=R))) (i j : nat) :
+  (i < length flat)%nat -> (j < length flat)%nat ->
+  snd (List.nth i flat (zrot ROps)) = snd (List.nth j flat (zrot ROps)) ->
+  (fst (List.nth j flat (zrot ROps)) = fst (List.nth i flat (zrot ROps)) \/
+   fst (List.nth j flat (zrot ROps)) = qneg ROps (fst (List.nth i flat (zrot ROps)))) ->
+  let inv := snd (rotation_unique ROps rnd10 rnd12 true flat) in
+  List.nth i inv 0%nat = List.nth j inv 0%nat.
+Proof.
+  intros Hi Hj Hf Hq. cbv zeta. unfold rotation_unique.
+  apply (rot_inverse_merge (rowcmp ROps) rowcmp_R_order (key_antipodal ROps rnd12) (zrot ROps) flat i j Hi Hj).
+  apply rowcmp_R_eq.
+  destruct (List.nth i flat (zrot ROps)) as [q fi]. destruct (List.nth j flat (zrot ROps)) as [q' fj].
+  cbn [fst snd] in Hf, Hq. subst fj. destruct Hq as [->| ->]; auto. symmetry. apply key_antipodal_neg.
+Qed.
+
+(* ... and whatever is merged is the same rotation up to the resolution *)
+Lemma rotation_merge_rounded (rnd10 rnd12 : R -> R) (delta : R) (flat : list (rot (T:=R))) (i j : nat) :
+  (forall x, Rabs (rnd12 x - x) <= delta) -> delta < / 2 ->
+  (i < length flat)%nat -> (j < length flat)%nat ->
+  qnorm2 ROps (fst (List.nth i flat (zrot ROps))) = 1 -> qnorm2 ROps (fst (List.nth j flat (zrot ROps))) = 1 ->
+  let inv := snd (rotation_unique ROps rnd10 rnd12 true flat) in
+  List.nth i inv 0%nat = List.nth j inv 0%nat ->
+  snd (List.nth i flat (zrot ROps)) = snd (List.nth j flat (zrot ROps)) /\
+  1 - 32 * (delta * delta)
+  <= qdot ROps (fst (List.nth i flat (zrot ROps))) (fst (List.nth j flat (zrot ROps)))
+     * qdot ROps (fst (List.nth i flat (zrot ROps))) (fst (List.nth j flat (zrot ROps))).
+Proof.
+  intros Hr Hd Hi Hj Ni Nj. cbv zeta. intros E. unfold rotation_unique in E.
+  apply (rot_inverse_merge (rowcmp ROps) rowcmp_R_order (key_antipodal ROps rnd12) (zrot ROps) flat i j Hi Hj) in E.
+  apply rowcmp_R_eq in E.
+  destruct (List.nth i flat (zrot ROps)) as [q fi]. destruct (List.nth j flat (zrot ROps)) as [q' fj].
+  cbn [fst snd] in *. apply (key_antipodal_merged rnd12 delta Hr q fi q' fj Hd Ni Nj E).
+Qed.
